@@ -43,7 +43,7 @@ fn env(user_has: (bool, bool, bool)) -> Value {
     e.json()
 }
 
-fn gen_case(c: &mut Choices) -> Case {
+pub fn gen_case(c: &mut Choices) -> Case {
     let prov = PROVENANCE[c.weighted(&[8, 2, 1, 2, 2, 2, 2, 2, 1])];
     let rt = c.chance(4, 5);
     let annotated = c.chance(3, 4);
